@@ -195,6 +195,9 @@ REGRESSED = {
     "C11-2": "caught when delivered (1 violation line), lost when the generator grew, caught again after header-terminated TOML inputs were added to the corpus",
 }
 NEUTRALISED = {
+    "C02-9": "confirmed when delivered (demo failed on the changed tree, the check caught it: 25 violation lines); the repair 3738a0b in /repo "
+             "(a compound assignment over several context nodes runs once per context node) removes the mechanism the change relied on "
+             "(the inner assignment evaluated once per context node over a shared live scalar): on the current tree its demo passes",
     "C08-4": "confirmed when delivered (demo failed on the changed tree); the repair cc8e78b in /repo (encodeToString prints a copy) "
              "removes the mechanism the change relied on: on the current tree the change no longer breaks the property and its demo passes",
 }
@@ -263,7 +266,7 @@ for r in rows:
     s = re.sub(r"\s+", " ", r["breaks"])[:150]
     n = re.sub(r"\s+", " ", r["needs_in_order_to_manifest"])[:110]
     if r.get("neutralised_by_repair"):
-        c = "— (neutralised by repair cc8e78b)"
+        c = "— (neutralised by a later repair)"
     else:
         c = "%s: %d violation lines" % (r["check"]["id"], r["check"]["violation_lines"]) if r["caught"] else "**MISSED**"
     f = "missed → " + r["check_strengthened_with"] if r["initially_missed"] else "caught"
